@@ -295,7 +295,7 @@ impl Profile {
                     vec![Op::Batch(BatchSpec { name: "n".into(), deps: vec![], ctrl: CtrlData::WriteC, times: 1, multi: false, fetch_data: false, inner: vec![st(StaticData::ReadA)] })],
                     vec![Op::Batch(BatchSpec { name: "n".into(), deps: vec![], ctrl: CtrlData::Unit, times: 1, multi: true, fetch_data: false, inner: vec![st(StaticData::WriteC)] })],
                 ];
-                for ctrl in [CtrlData::Unit, CtrlData::ReadA, CtrlData::WriteC] {
+                for ctrl in [CtrlData::Unit, CtrlData::ReadA, CtrlData::WriteC, CtrlData::OptReadA] {
                     for inner in &inners {
                         out.push((Op::Batch(BatchSpec { name: name.clone(), deps: vec![], ctrl, times: 1, multi: false, fetch_data: false, inner: inner.clone() }), false));
                     }
@@ -432,7 +432,8 @@ impl Profile {
                     }
                 }
                 // names outside ASCII (multi-byte characters, with and without a separator)
-                for nm in ["syst\u{e8}me \u{e9}t\u{e9}", "\u{7269}\u{7406}"] {
+                // ... and names that start with a digit (a name is printed as it is, it need not be an identifier)
+                for nm in ["syst\u{e8}me \u{e9}t\u{e9}", "\u{7269}\u{7406}", "0", "2nd-pass"] {
                     if !used.iter().any(|u| u == nm) {
                         out.push((s(nm.to_string(), &[], &[], 3, vec![]), false));
                     }
@@ -895,6 +896,24 @@ pub fn families(nmax: usize) -> Vec<(String, Vec<Op>)> {
             out.push((format!("barriers({})", n), v));
             out.push((format!("doubled-barriers({})", n), v2));
         }
+        if n <= 12 {
+            // a dependency list of n + 2 names in which one name occurs twice (first and last): n sources, `a` behind the
+            // first source, `b` depending on a, every source, and a again - b has to come after a
+            let mut v: Vec<Op> = (0..n).map(|i| s(nm(i), &[], &[], 3, vec![])).collect();
+            v.push(s("a".into(), &[], &[], 3, vec![nm(0)]));
+            let mut deps: Vec<String> = vec!["a".into()];
+            deps.extend((0..n).map(nm));
+            deps.push("a".into());
+            v.push(s("b".into(), &[], &[], 3, deps.clone()));
+            out.push((format!("repeated-name-in-long-dependency-list({})", n), v.clone()));
+            // ... and with the repeated name in the middle, twice in a row
+            let mut deps2: Vec<String> = (0..n).map(nm).collect();
+            deps2.insert(n / 2, "a".into());
+            deps2.insert(n / 2, "a".into());
+            v.pop();
+            v.push(s("b".into(), &[], &[], 1, deps2));
+            out.push((format!("repeated-name-in-the-middle-of-a-long-dependency-list({})", n), v));
+        }
         if n <= 8 {
             // fan-in: n sources, one sink depending on all of them
             let mut v: Vec<Op> = (0..n).map(|i| s(nm(i), &[], &[], 3, vec![])).collect();
@@ -984,6 +1003,31 @@ pub fn families(nmax: usize) -> Vec<(String, Vec<Op>)> {
 /// classes of one Rust type so that the contested id sorts first / in the middle / last among them.
 pub fn wide_families() -> Vec<(String, Vec<Op>, Vec<u8>)> {
     let mut out = Vec::new();
+    // builders that see MANY distinct resource ids (around 64 and 128): a filler system reads n ballast resources that
+    // nobody else names; around it, a writer that joins another writer's group through a dependency and the balance
+    // rule, and a third writer of the same resource registered last (it has to come after the second one)
+    for n in (60usize..=68).chain(124..=132) {
+        // abstract: 0 = X0, 1 = Y, 64.. = ballast; concrete: sweep classes 6.. in order of first appearance
+        let mut map: Vec<u8> = (0..64u8).map(|i| if (i as usize) < NCONCRETE { i } else { 0 }).collect();
+        map[0] = NCONCRETE as u8;
+        map[1] = (NCONCRETE + 1 + n) as u8;
+        let ballast: Vec<u8> = (0..n).map(|k| (64 + k) as u8).collect();
+        for k in 0..n {
+            map.push((NCONCRETE + 1 + k) as u8);
+        }
+        while map.len() < 256 {
+            map.push(0);
+        }
+        let heavy = s("heavy".into(), &[], &[], 5, vec![]);
+        let m1 = s("m1".into(), &[], &[0], 1, vec![]);
+        let filler = s("filler".into(), &ballast, &[], 3, vec![]);
+        let m2 = s("m2".into(), &[], &[1], 1, vec!["m1".into()]);
+        let last = s("s".into(), &[], &[1], 1, vec![]);
+        let last_r = s("s".into(), &[1], &[], 1, vec![]);
+        out.push((format!("many-ids({} ballast ids read by one system): heavy; writer of X; filler; writer of Y behind the writer of X; writer of Y", n), vec![heavy.clone(), m1.clone(), filler.clone(), m2.clone(), last.clone()], map.clone()));
+        out.push((format!("many-ids({} ballast ids): the same with a reader of Y last", n), vec![heavy.clone(), m1.clone(), filler.clone(), m2.clone(), last_r], map.clone()));
+        out.push((format!("many-ids({} ballast ids): filler first", n), vec![filler, heavy, m1, m2, last], map));
+    }
     for n in [15usize, 16, 17, 18, 24, 32] {
         let fillers: Vec<u8> = (1..=n as u8).collect();
         let x = 0u8;
@@ -1314,6 +1358,52 @@ pub fn c19_check(ops: &[Op], l: &crate::hsys::Layout, nmaps: usize) -> (u64, Vec
             .collect();
         if changed {
             cmp("systems nobody depends on registered with the empty name", "plan-depends-on-names", &unnamed, &idm, &mut n, &mut vs);
+        }
+    }
+    // (xii) the names used INSIDE a batch are a name space of their own: give every named inner system the name of an
+    //       outer system (the ones the batch depends on first), inner dependency lists renamed along
+    {
+        fn rename_inner(inner: &[Op], outer: &[String]) -> Vec<Op> {
+            let mut names: Vec<String> = Vec::new();
+            for o in inner {
+                if let Op::Sys(x) = o {
+                    if !x.name.is_empty() && !names.contains(&x.name) {
+                        names.push(x.name.clone());
+                    }
+                }
+            }
+            if names.len() > outer.len() {
+                return inner.to_vec();
+            }
+            let f = |n: &String| -> String { names.iter().position(|x| x == n).map_or_else(|| n.clone(), |k| outer[k].clone()) };
+            inner
+                .iter()
+                .map(|o| match o {
+                    Op::Sys(x) => Op::Sys(SysSpec { name: if x.name.is_empty() { String::new() } else { f(&x.name) }, deps: x.deps.iter().map(&f).collect(), ..x.clone() }),
+                    x => x.clone(),
+                })
+                .collect()
+        }
+        let outer_names = named_before(ops);
+        let has_named_inner = ops.iter().any(|o| matches!(o, Op::Batch(b) if b.inner.iter().any(|i| matches!(i, Op::Sys(x) if !x.name.is_empty()))));
+        if has_named_inner && !outer_names.is_empty() {
+            let t: Vec<Op> = ops
+                .iter()
+                .map(|o| match o {
+                    Op::Batch(b) => {
+                        // the batch's own dependencies first, then the other outer names
+                        let mut pool: Vec<String> = b.deps.clone();
+                        for n in &outer_names {
+                            if !pool.contains(n) {
+                                pool.push(n.clone());
+                            }
+                        }
+                        Op::Batch(BatchSpec { inner: rename_inner(&b.inner, &pool), ..b.clone() })
+                    }
+                    x => x.clone(),
+                })
+                .collect();
+            cmp("inner systems of every batch renamed to names used outside the batch", "plan-depends-on-names", &t, &idm, &mut n, &mut vs);
         }
     }
     // (xi) the same dependency SET spelled differently: reversed, the whole list twice (a,b,a,b), mirrored (a,b,b,a),
